@@ -306,6 +306,13 @@ class History:
             ref_cmp = dict(ref, pressures=None)
             d = first_diff(got_cmp, ref_cmp)
             if d:
+                # the reference must itself be reproducible before the object under test is blamed (lmfit on an
+                # ill-conditioned system amplifies last-bit differences of the linear algebra library)
+                ref2 = self.fresh_result(t, False)
+                if first_diff(dict(ref2, pressures=None), ref_cmp):
+                    self.ctx.skip("reference result not reproducible (two fresh objects disagree)")
+                    self.dead = True
+                    return True
                 return self.fail("differs-from-fresh-object:" + d[0].split("[")[0], observed=d[1], expected=d[2],
                                  detail={"where": d[0], "frame": t}) or True
             self.ctx.count("fresh-comparisons")
